@@ -1198,6 +1198,15 @@ func maskWidth(c *Ctx, newBig, lsh *ssa.Function, msb string) {
 						rz = false
 					}
 				}
+				// the unsigned remainder compared by order: r > 0, r >= 1 (not zero); r <= 0, r < 1 (zero)
+				if k, ok := constInt(other); other != nil && ok {
+					switch {
+					case cm.Op == token.LSS && isR(cm.Y) && k == 0, cm.Op == token.LEQ && isR(cm.Y) && k == 1:
+						rz = false
+					case cm.Op == token.LEQ && isR(cm.X) && k == 0, cm.Op == token.LSS && isR(cm.X) && k == 1:
+						rnz = false
+					}
+				}
 			}
 			check(e, rz, rnz, newBig.Pos())
 		}
